@@ -11,7 +11,7 @@ From Coq Require Import String List ZArith Strings.Byte Bool.
 From Verif Require Import Base.Wire TaxId.Common TaxId.Regimes TaxId.Spec TaxId.CommonProofs TaxId.CheckProofs
   TaxId.Mod11Proofs TaxId.PTProofs TaxId.ELProofs TaxId.COProofs TaxId.BRProofs TaxId.Mod97Proofs
   TaxId.LuhnProofs TaxId.ESProofs TaxId.GBProofs TaxId.NLProofs TaxId.DEProofs TaxId.INProofs TaxId.NormProofs
-  TaxId.SpecProofs.
+  TaxId.SpecProofs TaxId.Spec2Proofs.
 Import ListNotations.
 Open Scope Z_scope.
 
@@ -437,6 +437,46 @@ Theorem NL_accepts_exactly_the_published_rule c : valid_NL c = true <-> c = [] \
 Proof. exact (valid_NL_iff_spec c). Qed.
 Print Assumptions NL_accepts_exactly_the_published_rule.
 
+Theorem AT_accepts_exactly_the_published_rule c : valid_AT c = true <-> c = [] \/ Spec_AT c.
+Proof. exact (valid_AT_iff_spec c). Qed.
+Print Assumptions AT_accepts_exactly_the_published_rule.
+
+Theorem DE_accepts_exactly_the_published_rule c : valid_DE c = true <-> c = [] \/ Spec_DE c.
+Proof. exact (valid_DE_iff_spec c). Qed.
+Print Assumptions DE_accepts_exactly_the_published_rule.
+
+Theorem CO_accepts_exactly_the_published_rule c : valid_CO c = true <-> c = [] \/ Spec_CO c.
+Proof. exact (valid_CO_iff_spec c). Qed.
+Print Assumptions CO_accepts_exactly_the_published_rule.
+
+Theorem BR_accepts_exactly_the_published_rule c : valid_BR c = true <-> c = [] \/ Spec_BR c.
+Proof. exact (valid_BR_iff_spec c). Qed.
+Print Assumptions BR_accepts_exactly_the_published_rule.
+
+(* ES: every code of the published rule is accepted, and the validator accepts exactly the published
+   shapes and check characters - except that the control character of a CIF / K-L-M number is
+   accepted in either form (digit or letter) whatever the first letter, where the published rule
+   fixes the form for K L M N P Q R S W (letter) and A B E H (digit) *)
+Theorem ES_accepts_every_code_of_the_published_rule c : c = [] \/ Spec_ES c -> valid_ES c = true.
+Proof. exact (spec_ES_accepted c). Qed.
+Print Assumptions ES_accepts_every_code_of_the_published_rule.
+
+Theorem ES_accepts_exactly_the_published_rule_with_either_control_form c :
+  valid_ES c = true <-> c = [] \/ Spec_ES_either_form c.
+Proof. exact (valid_ES_iff_either_form c). Qed.
+Print Assumptions ES_accepts_exactly_the_published_rule_with_either_control_form.
+
+Theorem ES_accepts_exactly_the_published_rule_refuted :
+  (exists c, valid_ES c = true /\ ~ (c = [] \/ Spec_ES c)) /\
+  valid_ES (bs "Q28260008") = true /\ ~ Spec_ES (bs "Q28260008") /\ Spec_ES (bs "Q2826000H") /\
+  valid_ES (bs "A5881850A") = true /\ ~ Spec_ES (bs "A5881850A") /\ Spec_ES (bs "A58818501").
+Proof. exact valid_ES_iff_spec_refuted. Qed.
+Print Assumptions ES_accepts_exactly_the_published_rule_refuted.
+
+Theorem IN_accepts_exactly_the_published_rule c : valid_IN c = true <-> c = [] \/ Spec_IN c.
+Proof. exact (valid_IN_iff_spec c). Qed.
+Print Assumptions IN_accepts_exactly_the_published_rule.
+
 (* GB (9 digits) *)
 Theorem GB_accepts_exactly_the_published_rule c :
   List.length c = 9%nat ->
@@ -444,10 +484,51 @@ Theorem GB_accepts_exactly_the_published_rule c :
 Proof. exact (gb_commercial_iff_spec_9 c). Qed.
 Print Assumptions GB_accepts_exactly_the_published_rule.
 
+(* GB, all forms: 9 digits, 12 digits (with a branch identifier), GD000-GD499, HA500-HA999 *)
+Theorem GB_all_forms_accepts_exactly_the_published_rule c : valid_GB c = true <-> c = [] \/ Spec_GB c.
+Proof. exact (valid_GB_iff_spec c). Qed.
+Print Assumptions GB_all_forms_accepts_exactly_the_published_rule.
+
+(* AE: format only (15 digits) *)
+Theorem AE_accepts_exactly_the_published_rule c : valid_AE c = true <-> c = [] \/ Spec_AE c.
+Proof. exact (valid_AE_iff_spec c). Qed.
+Print Assumptions AE_accepts_exactly_the_published_rule.
+
+(* MX: format only (RFC of persons and companies) *)
+Theorem MX_accepts_exactly_the_published_rule c : valid_MX c = true <-> c = [] \/ Spec_MX c.
+Proof. exact (valid_MX_iff_spec c). Qed.
+Print Assumptions MX_accepts_exactly_the_published_rule.
+
 Example published_rules_are_satisfiable :
   Spec_NL (bs "029729975B45") /\ Spec_GB_commercial (bs "930000297").
 Proof.
   split.
   - destruct (proj1 (valid_NL_iff_spec (bs "029729975B45")) ltac:(vm_compute; reflexivity)) as [E|S]; [discriminate E | exact S].
   - apply (gb_commercial_iff_spec_9 (bs "930000297") eq_refl). split; vm_compute; reflexivity.
+Qed.
+
+Example more_published_rules_are_satisfiable :
+  Spec_AT (bs "U03082467") /\ Spec_DE (bs "767127680") /\ Spec_CO (bs "497465072") /\ Spec_CO (bs "2917034236") /\
+  Spec_BR (bs "75432319487558") /\ Spec_IN (bs "28AYQJU1485FNZH") /\ Spec_AE (bs "526018159083016") /\
+  Spec_MX (bs "KGP9907517OC") /\ Spec_GB (bs "957117743") /\ Spec_GB (bs "GD499") /\ Spec_GB (bs "HA500") /\
+  Spec_ES (bs "Q2826000H") /\ Spec_ES (bs "A58818501") /\
+  Spec_ES_either_form (bs "Y6031372G") /\ Spec_ES_either_form (bs "54362315K").
+Proof.
+  assert (Q : forall (S : bytes -> Prop) (v : bytes -> bool) c,
+             (forall c, v c = true <-> c = [] \/ S c) -> v c = true -> c <> [] -> S c).
+  { intros S v c H V NE. apply H in V. destruct V as [E|V]; [contradiction | exact V]. }
+  destruct valid_ES_iff_spec_refuted as (_ & _ & _ & S1 & _ & _ & S2).
+  split; [apply (Q _ _ _ valid_AT_iff_spec); [vm_compute; reflexivity | discriminate]|].
+  split; [apply (Q _ _ _ valid_DE_iff_spec); [vm_compute; reflexivity | discriminate]|].
+  split; [apply (Q _ _ _ valid_CO_iff_spec); [vm_compute; reflexivity | discriminate]|].
+  split; [apply (Q _ _ _ valid_CO_iff_spec); [vm_compute; reflexivity | discriminate]|].
+  split; [apply (Q _ _ _ valid_BR_iff_spec); [vm_compute; reflexivity | discriminate]|].
+  split; [apply (Q _ _ _ valid_IN_iff_spec); [vm_compute; reflexivity | discriminate]|].
+  split; [apply (Q _ _ _ valid_AE_iff_spec); [vm_compute; reflexivity | discriminate]|].
+  split; [apply (Q _ _ _ valid_MX_iff_spec); [vm_compute; reflexivity | discriminate]|].
+  split; [apply (Q _ _ _ valid_GB_iff_spec); [vm_compute; reflexivity | discriminate]|].
+  split; [apply (Q _ _ _ valid_GB_iff_spec); [vm_compute; reflexivity | discriminate]|].
+  split; [apply (Q _ _ _ valid_GB_iff_spec); [vm_compute; reflexivity | discriminate]|].
+  split; [exact S1|]. split; [exact S2|].
+  split; apply (Q _ _ _ valid_ES_iff_either_form); first [vm_compute; reflexivity | discriminate].
 Qed.
